@@ -545,7 +545,9 @@ pub fn run(tier: &str, seed: u64) -> i32 {
         (every scalar kind, sequences, mappings with non-string keys, tags, depth <= 5) as whole rule and substituted \
         into a random position of a valid rule, nesting 1..64 deep. Each input goes through String::tokenise, \
         into_identifier, parse_identifier, Rule::from_str and Rule::from_value as applicable. Oracle: returns Ok or \
-        Err without panic or overflow (overflow checks are compiled in) and within the 20 s watchdog. Non-trivial: \
+        Err without panic or overflow (overflow checks are compiled in) and within the 20 s watchdog. The degenerate \
+        corpus includes long multi-byte texts, non-ASCII digits and wrong-shaped identifier blocks whose rendering is \
+        long. Non-trivial: \
         every input reaches its layer; distinct by (role, character-class shape of the first 12 characters, accepted)."
         .into();
     report.assumptions = vec!["native stack exhaustion beyond nesting depth 64 is out of scope".into()];
